@@ -48,6 +48,9 @@ class CodeView:
         self.co_argcount = real.co_argcount
         self.co_kwonlyargcount = real.co_kwonlyargcount
         self.co_filename = real.co_filename
+        self.co_firstlineno = real.co_firstlineno
+        self.co_freevars, self.co_cellvars = real.co_freevars, real.co_cellvars
+        self.co_posonlyargcount = real.co_posonlyargcount
         self.co_qualname = getattr(real, "co_qualname", real.co_name)
 
     def __ch_deep_realize__(self, memo):
